@@ -25,7 +25,9 @@ CORPUS = [
 
 HOSTS = ['a..b', '.', 'a' * 64 + '.com', 'x\\u0000y.com', '\\ud800.com', 'localhost', '127.0.0.1', '10.1.2.3',
          'example.com', '8.8.8.8', '::1', '2001:db8::1', 'h.onion', 'x' * 300, '', ' ', 'a b.com', '-a.com',
-         '1.2.3', '999.999.999.999', 'EXAMPLE.com', 'xn--', '[::1]', 'a.b.c.d.e.f.example.org']
+         '1.2.3', '999.999.999.999', 'EXAMPLE.com', 'xn--', '[::1]', 'a.b.c.d.e.f.example.org',
+         'b\\u00fccher.example', '\\uff4cocalhost', 'local\\u00adhost', 'foo\\u3002onion', 'ex\\u00e4mple.org',
+         '100.64.3.4', '198.51.100.7', 'fe80::2', 'ff02::1', '0.0.0.0']
 PORTS = ['50001', '0', '-1', '65535', '65536', 'true', 'false', 'null', '"50001"', '1.5', 'Infinity', 'NaN',
          '1e999', BIG, '[]', '{}', '""']
 
@@ -137,6 +139,20 @@ class HostileDriver(ClientDriver):
             kind = rng.random()
             if method == 'server.add_peer' and kind < 0.7:
                 args = [rng.choice(feats)]
+            elif kind < 0.22 and args:
+                # well-typed boundary values for every argument at once (semantic corner combinations)
+                tip = w.daemon.height
+                ints = ['0', '0', '1', '2', str(tip), str(tip + 1), str(tip - 1), '2016', '2017', 'true', 'false',
+                        '"0"', '"1"', '0.0', '1.0']
+                for j, a in enumerate(valid):
+                    if rng.random() < 0.6:
+                        if a.lstrip('-').isdigit():
+                            args[j] = rng.choice(ints)
+                        elif a in ('true', 'false'):
+                            args[j] = rng.choice(['true', 'false', '0', '1'])
+                        elif a.startswith('"') and len(a) < 20:
+                            args[j] = rng.choice(['"txid"', '"tx"', '"block_hash"', '"block_header"', '"merkle_root"',
+                                                  '"None"', '[]', '{}', '[1]', '""', 'null'])
             elif kind < 0.7 and args:
                 args[rng.randrange(len(args))] = rng.choice(CORPUS)
             elif kind < 0.8:
